@@ -518,6 +518,51 @@ def check_vs_nested(case):
     return viols, evals, keys
 
 
+def check_vs_unoptimised(case):
+    """a residue whose constraints contradict each other (triangle inequality) can never be optimised; polyply then proceeds
+    with the coordinates it has - the virtual sites in the delivered template must still sit on their constructions"""
+    viols, evals, keys = [], 0, []
+    base = dict(id="frustrated", names=["A", "B", "C", "V", "W"], bonds=[], angles=[])
+    cons = ["1 2 1 0.1", "2 3 1 0.1", "1 3 1 0.5"]
+    for k1, p1 in (("2", (0.3,)), ("2", (1.2,))):
+        for order in ("vs-first", "vs-last"):
+            for layout in (0, 1, 2):
+                l2 = "4 1 3 1 " + " ".join(map(str, p1))
+                ln = "5 1 1 2 3"
+                extra = {"constraints": cons}
+                if order == "vs-first":
+                    extra = {"virtual_sites2": [l2], "virtual_sitesn": [ln], "constraints": cons}
+                else:
+                    extra.update({"virtual_sitesn": [ln], "virtual_sites2": [l2]})
+                evals += 1
+                case1 = dict(kind="vsunopt1", params=list(p1), order=order, layout=layout)
+                try:
+                    top, recs = gen_templates(top_for([base], ["R"], extra_inter=extra), None, layout)
+                except Exception as exc:  # noqa
+                    viols.append(crash_violation(exc, case1, assertion="templates-generated", tags=["never-optimised"]))
+                    continue
+                mm = top.molecules[0]
+                tmpl = mm.templates.get(mm.nodes[0].get("template"))
+                if not tmpl or any(n not in tmpl for n in base["names"]):
+                    viols.append(dict(assertion="template-holds-the-residue-atom-names", tags=["never-optimised"], message=f"template {tmpl and sorted(tmpl)}", case=case1, detail={}))
+                    continue
+                P = {n: np.asarray(tmpl[n], dtype=float) for n in base["names"]}
+                wantV = manual_vs("2", p1, [P["A"], P["C"]])
+                wantW = manual_vs("n", (), [P["A"], P["B"], P["C"]])
+                for nm, want in (("V", wantV), ("W", wantW)):
+                    if not np.abs(P[nm] - want).max() <= 1e-6 and len(viols) < 20:
+                        viols.append(dict(assertion="virtual-site-on-manual-formula", tags=["never-optimised"],
+                                          message=f"residue that cannot be optimised: site {nm} at {P[nm]}, the formula gives {want} from the delivered template", case=case1, detail={}))
+                cog = np.mean(list(P.values()), axis=0)
+                if not np.abs(cog).max() <= 1e-9:
+                    viols.append(dict(assertion="template-centre-of-geometry-zero", tags=["never-optimised"], message=f"centre {cog}", case=case1, detail={}))
+                if any(r["ok"] for r in recs[1::2]):
+                    viols.append(dict(assertion="optimised-template-meets-targets", tags=["never-optimised"],
+                                      message="contradictory constraints (0.1 + 0.1 < 0.5) were reported as optimised", case=case1, detail={}))
+                keys.append(f"vsunopt:{p1}:{order}:{layout}")
+    return viols, evals, keys
+
+
 def check_user(case):
     """build files with [ template ] / [ volumes ] for a subset of residues"""
     viols, evals, keys = [], 0, []
@@ -680,17 +725,18 @@ def cases(tier):
         yield dict(kind="pairs", part=p, nparts=nparts, tier=tier)
     yield dict(kind="vsres", tier=tier)
     yield dict(kind="vsnest", tier=tier)
+    yield dict(kind="vsunopt", tier=tier)
     for p in range(8):
         yield dict(kind="twomol", part=p, nparts=8, tier=tier)
     yield dict(kind="user", tier=tier)
 
 
-FUNCS = {"vsnest": check_vs_nested, "constr": check_constr, "optgeom": check_optgeom, "twomol": check_two_molecules, "vs": check_vs, "pairs": check_pairs, "vsres": check_vs_residues, "user": check_user}
+FUNCS = {"vsunopt": check_vs_unoptimised, "vsnest": check_vs_nested, "constr": check_constr, "optgeom": check_optgeom, "twomol": check_two_molecules, "vs": check_vs, "pairs": check_pairs, "vsres": check_vs_residues, "user": check_user}
 
 
 def run_case(case):
     if case["kind"] not in FUNCS:
-        fam = {"vs1": "vs", "pair1": "pairs", "vsres1": "vsres", "user1": "user", "twomol1": "twomol", "optgeom1": "optgeom", "constr1": "constr", "vsnest1": "vsnest"}[case["kind"]]
+        fam = {"vs1": "vs", "pair1": "pairs", "vsres1": "vsres", "user1": "user", "twomol1": "twomol", "optgeom1": "optgeom", "constr1": "constr", "vsnest1": "vsnest", "vsunopt1": "vsunopt"}[case["kind"]]
         out = []
         for part in range(24 if fam == "pairs" else 1):
             v, _, _ = FUNCS[fam](dict(kind=fam, tier="thorough", part=part, nparts=24))
